@@ -42,14 +42,6 @@ mod verif_c15 {
     }
 
     // ---- the constructor's own contract -------------------------------------------------------
-    #[kani::proof_for_contract(SafeLong::new)]
-    fn new_contract() {
-        let v: i64 = kani::any();
-        let r = SafeLong::new(v);
-        assert!(new_post(v, &r));
-        kani::cover!(r.is_ok());
-        kani::cover!(r.is_err());
-    }
 
     #[kani::proof]
     fn min_max_values() {
@@ -61,7 +53,7 @@ mod verif_c15 {
 
     // ---- TryFrom<wide> : direct (inlines `new`) and modular (against `new`'s contract) ----------
     macro_rules! try_from_harness {
-        ($direct:ident, $modular:ident, $t:ty, $rng:ident, $wide:ty) => {
+        ($direct:ident, $t:ty, $rng:ident, $wide:ty) => {
             #[kani::proof]
             fn $direct() {
                 let v: $t = kani::any();
@@ -78,31 +70,16 @@ mod verif_c15 {
                 kani::cover!(in_range);
                 kani::cover!(!in_range);
             }
-
-            #[kani::proof]
-            #[kani::stub_verified(SafeLong::new)]
-            fn $modular() {
-                let v: $t = kani::any();
-                let r = SafeLong::try_from(v);
-                let in_range = $rng(v as $wide);
-                match r {
-                    Ok(s) => {
-                        assert!(wf(&s));
-                        assert!(s.0 as i128 == v as i128);
-                        assert!(in_range);
-                    }
-                    Err(_) => assert!(!in_range),
-                }
-                kani::cover!(true);
-            }
         };
     }
-    try_from_harness!(try_from_u64, try_from_u64_modular, u64, in_range_u128, u128);
-    try_from_harness!(try_from_i64, try_from_i64_modular, i64, in_range_i128, i128);
-    try_from_harness!(try_from_u128, try_from_u128_modular, u128, in_range_u128, u128);
-    try_from_harness!(try_from_i128, try_from_i128_modular, i128, in_range_i128, i128);
-    try_from_harness!(try_from_usize, try_from_usize_modular, usize, in_range_u128, u128);
-    try_from_harness!(try_from_isize, try_from_isize_modular, isize, in_range_i128, i128);
+    try_from_harness!(try_from_u64, u64, in_range_u128, u128);
+    try_from_harness!(try_from_i64, i64, in_range_i128, i128);
+    try_from_harness!(try_from_u128, u128, in_range_u128, u128);
+    try_from_harness!(try_from_i128, i128, in_range_i128, i128);
+    try_from_harness!(try_from_usize, usize, in_range_u128, u128);
+    try_from_harness!(try_from_isize, isize, in_range_i128, i128);
+
+    //@@MODULAR@@
 
     // ---- From<narrow> ---------------------------------------------------------------------------
     macro_rules! from_harness {
@@ -335,21 +312,6 @@ mod verif_c15 {
     }
 
     // ---- text: FromStr constructs only through `new` (modular), boundary literals concrete ---------
-    #[kani::proof]
-    #[kani::stub_verified(SafeLong::new)]
-    #[kani::unwind(20)]
-    fn from_str_boundaries() {
-        // accepted: both bounds, with sign and leading zeros
-        let ok = ["9007199254740991", "-9007199254740991", "+9007199254740991", "0", "-0", "009007199254740991"];
-        let vals = [MAX, MIN, MAX, 0, 0, MAX];
-        let i: usize = kani::any();
-        kani::assume(i < ok.len());
-        match SafeLong::from_str(ok[i]) {
-            Ok(s) => assert!(s.0 == vals[i]),
-            Err(_) => assert!(false),
-        }
-        kani::cover!(true);
-    }
 
     #[kani::proof]
     #[kani::unwind(22)]
